@@ -79,7 +79,7 @@ def _try(hyps, goal, cfg, tmo, core=False):
     ctx = z3.Context()
     s = z3.Solver(ctx=ctx)
     s.set("rlimit", int(max(tmo, 200) * RL_PER_MS))
-    s.set("timeout", int(max(tmo, 200) * 6 + 3000))
+    s.set("timeout", int(max(tmo, 200) * 10 + 5000))
     if core:
         s.set(unsat_core=True)
     for k, v in cfg.items():
@@ -93,7 +93,7 @@ def _try(hyps, goal, cfg, tmo, core=False):
         else:
             s.add(h.translate(ctx))
     s.add(z3.Not(goal.translate(ctx)))
-    timer = threading.Timer(max(tmo, 200) / 1000.0 * 8 + 5.0, ctx.interrupt)
+    timer = threading.Timer(max(tmo, 200) / 1000.0 * 12 + 8.0, ctx.interrupt)
     timer.start()
     try:
         r = s.check()
@@ -160,18 +160,21 @@ def discharge(obl, timeout_ms=20000, use_cvc5=True, want_model=False, record=Non
         want = set(h["core"])
         sub = [x for x in obl.hyps if fingerprint(x) in want]
     sl = slices(obl)
-    two = PORTFOLIO[:2]
-    if h and h.get("cfg") == "z3 mbqi-only":
-        two = [PORTFOLIO[1], PORTFOLIO[0]]
+    D, M, S7, E = PORTFOLIO
+    cheap = [D, E]                       # e-matching with and without model-based instantiation
+    deep = [D, E, M]
+    if h:
+        first = [c for c in PORTFOLIO if c[0] == h.get("cfg")]
+        cheap = first + [c for c in cheap if c not in first]
     plan = []
     if sub is not None:
-        plan += [("hint-core", sub, c, cfg, 300) for c, cfg in two]
+        plan += [("hint-core", sub, c, cfg, 300) for c, cfg in cheap]
     for sname, hyps in sl:
-        plan += [(sname, hyps, c, cfg, 250) for c, cfg in two]
+        plan += [(sname, hyps, c, cfg, 250) for c, cfg in cheap]
     if sub is not None:
-        plan += [("hint-core", sub, c, cfg, 2500) for c, cfg in two]
+        plan += [("hint-core", sub, c, cfg, 2500) for c, cfg in deep]
     for sname, hyps in sl:
-        plan += [(sname, hyps, c, cfg, timeout_ms // 5) for c, cfg in (PORTFOLIO if sname == "all" else two)]
+        plan += [(sname, hyps, c, cfg, timeout_ms // 5) for c, cfg in (deep + [S7] if sname == "all" else deep)]
     for sname, hyps, cname, cfg, budget in plan:
         verdict, info = _try(hyps, obl.goal, cfg, budget)
         if verdict == "unsat":
